@@ -471,6 +471,11 @@ BUILTINS.update({'Markup': Markup, 'Undefined': Undefined})
 CONSTANTS = frozenset(['False', 'True', 'None', 'NotImplemented', 'Ellipsis'])
 
 
+class _ClassScope(set):
+    """The names bound in a class body: visible in the class body itself but,
+    as in Python, not in the functions nested in it."""
+
+
 class TemplateASTTransformer(ASTTransformer):
     """Concrete AST transformer that implements the AST transformations needed
     for code embedded in templates.
@@ -524,7 +529,7 @@ class TemplateASTTransformer(ASTTransformer):
     def visit_ClassDef(self, node):
         if len(self.locals) > 1:
             self.locals[-1].add(node.name)
-        self.locals.append(set())
+        self.locals.append(_ClassScope())
         try:
             return ASTTransformer.visit_ClassDef(self, node)
         finally:
@@ -541,6 +546,12 @@ class TemplateASTTransformer(ASTTransformer):
         if len(self.locals) > 1:
             self.locals[-1].update(self._extract_names(node))
         return ASTTransformer.visit_ImportFrom(self, node)
+
+    def _is_local(self, name):
+        for scope in self.locals[:-1]:
+            if name in scope and not isinstance(scope, _ClassScope):
+                return True
+        return name in self.locals[-1]
 
     def _bound_names(self, body):
         """Return the names bound anywhere in the body of a function; as in
@@ -635,8 +646,7 @@ class TemplateASTTransformer(ASTTransformer):
     def visit_Name(self, node):
         # If the name refers to a local inside a lambda, list comprehension, or
         # generator expression, leave it alone
-        if isinstance(node.ctx, _ast.Load) and \
-                node.id not in flatten(self.locals):
+        if isinstance(node.ctx, _ast.Load) and not self._is_local(node.id):
             # Otherwise, translate the name ref into a context lookup
             name = _new(_ast.Name, '_lookup_name', _ast.Load())
             namearg = _new(_ast.Name, '__data__', _ast.Load())
